@@ -177,6 +177,25 @@ M = {
     "shared-build-result-cache": (["C12", "C03"], [("src/spox/_graph.py",
         "        default_factory=_build.Cached\n",
         "        default_factory=lambda _c=_build.Cached(): _c\n")]),
+    # ---- round 6: inputs read only as control-flow operands / only deep inside bodies
+    "cf-operand-arguments-not-discovered": (["C03"], [("src/spox/_build.py",
+        """            [self.source_of[graph]],
+            lambda nd: (a._op for a in nd.dependencies),
+            collect_arguments,""",
+        """            [self.source_of[graph]],
+            lambda nd: (a._op for a in nd.dependencies if not (nd.subgraphs and isinstance(a._op, Argument))),
+            collect_arguments,""")]),
+    "drop-keeps-only-inputs-read-at-depth-le-1": (["C03"], [("src/spox/_public.py",
+        "        used = {info.name: info for info in model_proto.graph.input}\n",
+        "        _seen = {n for nd in model_proto.graph.node for n in nd.input} | {n for nd in model_proto.graph.node for a in nd.attribute if a.HasField('g') for sn in a.g.node for n in sn.input} | {o.name for o in model_proto.graph.output}\n"
+        "        used = {info.name: info for info in model_proto.graph.input if info.name in _seen}\n")]),
+    "scan-inputs-not-followed": (["C03"], [("src/spox/_build.py",
+        """            [self.source_of[graph]],
+            lambda nd: (a._op for a in nd.dependencies),
+            collect_arguments,""",
+        """            [self.source_of[graph]],
+            lambda nd: (a._op for a in (list(nd.dependencies)[:1] if nd.op_type.identifier == "Scan" else nd.dependencies)),
+            collect_arguments,""")]),
 }
 
 
